@@ -227,8 +227,19 @@ def check_translation(ctx):
                     problems.append('does not return the node it built')
                 if cls in ('SumTerm', 'ProductTerm', 'MaxTerm', 'MinTerm'):
                     loops = [s for s in body if isinstance(s, ast.For)]
-                    if len(loops) != 1 or k(src(loops[0].iter)) != 'args' or \
-                            [k(util.stmt_key(x)) for x in loops[0].body] != ['%s.add_term(%s)' % (var, rec % src(loops[0].target))]:
+                    ok_loop = False
+                    if len(loops) == 1:
+                        lp_ = loops[0]
+                        it_ = k(src(lp_.iter))
+                        elem_ = src(lp_.target) if it_ == 'args' else ('args[%s]' % src(lp_.target) if it_ == 'range(len(args))' else None)
+                        # the element may be translated into a named temporary first
+                        wrap_ = ast.FunctionDef(name='_b', args=ast.arguments(posonlyargs=[], args=[], kwonlyargs=[], kw_defaults=[], defaults=[]),
+                                                body=lp_.body, decorator_list=[], type_params=[])
+                        ld_ = {n_: v_ for n_, v_ in util.single_defs(wrap_).items() if v_ is not None}
+                        eff_ = [k(src(util.inline(x, ld_))) for x in lp_.body
+                                if not (isinstance(x, ast.Assign) and isinstance(x.targets[0], ast.Name) and x.targets[0].id in ld_)]
+                        ok_loop = elem_ is not None and eff_ == ['%s.add_term(%s)' % (var, rec % elem_)]
+                    if not ok_loop:
                         problems.append('not every argument is translated and added')
                 elif cls == 'PowerTerm':
                     if '%s.set_base(%s)' % (var, rec % 'args[0]') not in t or '%s.set_exponent(%s)' % (var, rec % 'args[1]') not in t:
@@ -389,18 +400,29 @@ def check_translation(ctx):
 
 
 def check_users(ctx):
+    def ret_of(fn_):
+        # the value returned, read through single-definition temporaries (`rate = ...; return rate`)
+        g_ = util.inline_pure_temps(fn_)
+        d_ = {n_: v_ for n_, v_ in util.single_defs(g_).items() if v_ is not None}
+        r_ = [s_ for s_ in g_.body if isinstance(s_, ast.Return)]
+        other = [s_ for s_ in g_.body if not isinstance(s_, (ast.Return, ast.AnnAssign)) and not (isinstance(s_, ast.Expr) and isinstance(s_.value, ast.Constant))
+                 and not (isinstance(s_, ast.Assign) and isinstance(s_.targets[0], ast.Name) and s_.targets[0].id in d_)]
+        if len(r_) != 1 or other:
+            return None
+        return k(src(util.inline(r_[0].value, d_)))
     f = ctx.fn('types:GeneralPropensity.get_propensity')
     a = [x.arg for x in f.args.args[1:]]
-    ok = [k(util.stmt_key(s)) for s in f.body] == ['returnself.term.evaluate(%s)' % ','.join(a)]
+    ok = ret_of(f) == 'self.term.evaluate(%s)' % ','.join(a)
     ctx.ob('R2.1-users', 'GeneralPropensity.get_propensity', ok, ctx.loc('types', f), 'a general rate is the compiled expression at (state, params, time)', '')
     f = ctx.fn('types:GeneralPropensity.get_volume_propensity')
     a = [x.arg for x in f.args.args[1:]]
-    ok = [k(util.stmt_key(s)) for s in f.body] == ['returnself.term.volume_evaluate(%s)' % ','.join(a)]
+    ok = ret_of(f) == 'self.term.volume_evaluate(%s)' % ','.join(a)
     ctx.ob('R2.1-users', 'GeneralPropensity.get_volume_propensity', ok, ctx.loc('types', f), 'with a volume the expression sees that volume', '')
     f = ctx.fn('types:GeneralPropensity.initialize')
     t = [k(util.stmt_key(s)) for s in f.body]
     a = [x.arg for x in f.args.args[1:]]
-    ok = "instring=%s['rate']" % a[0] in t and 'self.term=parse_expression(instring,%s,%s)' % (a[1], a[2]) in t
+    ok = ("instring=%s['rate']" % a[0] in t and 'self.term=parse_expression(instring,%s,%s)' % (a[1], a[2]) in t) or \
+        "self.term=parse_expression(%s['rate'],%s,%s)" % (a[0], a[1], a[2]) in t
     ctx.ob('R2.1-users', 'GeneralPropensity.initialize', ok, ctx.loc('types', f), "the compiled expression is the parse of the 'rate' string over the model's dictionaries", '')
 
 
